@@ -41,6 +41,15 @@ FOCUS_W = {
 NOTES['w'] = NOTES['v']
 if variant == 'w':
     ml = "\n".join(f" - {n}  [{w}]" for n, w in FOCUS_W[prop])
+FOCUS_X = {
+ 'C07': [("memtable.List.ScanPrefix, List.Get, tablesSnap", "dkv/memtable/list.go"), ("DB.Get, DB.ScanPrefix", "dkv/db.go")],
+ 'C17': [("TableWriter.Write, NewTableWriter", "dkv/sst/table_writer.go"), ("Table.Document, NewTableFromDocument, TableDocument", "dkv/sst/table.go"), ("CheckpointList.Save, LoadCheckpointList", "dkv/recovery/checkpoint_list.go")],
+ 'C18': [("Compactor.majorCompaction (table selection and the base-level loop)", "dkv/sst/compaction.go"), ("Compactor.minorCompaction", "dkv/sst/compaction.go")],
+ 'C01': [("Assembly.Deploy", "jobs/assembly.go"), ("SplitTracker.AddSplits, TrackAssigned, LoadSplits", "connectors/kinesis/split_tracker.go")],
+}
+NOTES['x'] = NOTES['v']
+if variant == 'x':
+    ml = "\n".join(f" - {n}  [{w}]" for n, w in FOCUS_X[prop])
 if variant == 'v':
     ml = "\n".join(f" - {n}  [{w}]" for n, w in FOCUS[prop])
 NOTE = NOTES[variant]
